@@ -403,6 +403,9 @@ func sortRows(rows [][]prim.Value, cols []string, terms []*gen.Term, scope Scope
 
 func rowCount(x gen.Expr, scope Scope) int {
 	v := Eval(x, &Env{Scope: scope})
+	if prim.IsHugeCount(v) {
+		return int(^uint(0) >> 1)
+	}
 	n, ok := v.(int64)
 	if !ok || n < 0 {
 		// the properties speak of row limits; what a negative or non-integer
